@@ -604,7 +604,7 @@ def j_c05(inp):
 @judge_for("C06", "qnl")
 def j_c06(inp):
     ms, vals, std, dne = inp
-    if not wellformed(ms) or not vals or any(x <= 0 for x in vals):
+    if not wellformed(ms) or any(x <= 0 for x in vals):
         return None
     s = mk_abs(ms)
     s.quantise_note_lengths(list(vals), standard_length=std, do_not_extend=dne)
@@ -782,10 +782,12 @@ def tonic(kname):
 
 # ---- C15
 @judge_for("C15", "merge")
-def j_c15(seqs):
+def j_c15(inp):
+    kinds = [k for k, _ in inp]
+    seqs = [(ms if k == "abs" else abs_from_rel(ms)[0]) for k, ms in inp]
     if not all(balanced(ms) and wellformed(ms) for ms in seqs):
         return None
-    ss = [mk_abs(ms) for ms in seqs]
+    ss = [ops.mk_any(k, ms) for k, ms in inp]
     durs = [(abs_of(s)[-1][2] if abs_of(s) else 0) for s in ss]
     ss[0].merge(ss[1:])
     out = abs_of(ss[0])
@@ -797,8 +799,8 @@ def j_c15(seqs):
     if d != max(durs):
         v.append(f"duration {d} != max {max(durs)}")
     # order independence of (pitch, onset, duration, channel)
-    perm = list(reversed(seqs))
-    ps = [mk_abs(ms) for ms in perm]
+    perm = list(reversed(inp))
+    ps = [ops.mk_any(k, ms) for k, ms in perm]
     ps[0].merge(ps[1:])
     strip = lambda l: sorted((c, p, on, dd) for c, p, on, dd, _ in (roll(l) or []))
     if strip(out) != strip(abs_of(ps[0])):
@@ -1002,6 +1004,8 @@ def bin_value(nb, v):
 
 def valid_piece(cfg, tracks):
     nt, lo, hi, steps, values, nb = cfg[:6]
+    if len(cfg) > 11 and cfg[11] != 24:
+        return None        # a tokeniser resolution different from the library's PPQN: the bar grid of the piece is not the tokeniser's
     steps, values = ops.cfg_steps(cfg), ops.cfg_values(cfg)
     u = steps[0]
     if any(s % u for s in steps) or len(tracks) != nt:
@@ -1019,15 +1023,13 @@ def valid_piece(cfg, tracks):
         for c, p, on, dur, vel in roll(a):
             if not (lo <= p <= hi) or dur not in values or on % u or not (1 <= vel <= 127):
                 return None
-        if i > 0 and any(m[0] == "TIME_SIGNATURE" for m in a):
-            return None
         if any(m[0] not in ("NOTE_ON", "NOTE_OFF", "TIME_SIGNATURE") for m in a):
             return None
         if d % u:
             return None
         info.append((a, d))
     sigs = {}
-    for m in info[0][0]:
+    for m in [m for a, _ in info for m in a]:
         if m[0] == "TIME_SIGNATURE":
             if m[2] in sigs or (8 * m[8]) % m[9] or not (2 <= 8 * m[8] // m[9] <= 16) or (96 * m[8] // m[9]) % u or m[9] not in (1, 2, 4, 8, 16):
                 return None
@@ -1149,7 +1151,8 @@ def j_c02_closed(inp):
 
 @judge_for("C03", "tok_stateful")
 def j_c03(inp):
-    cfg, tracks, seed = inp
+    cfg, tracks, seed = inp[0], inp[1], inp[2]
+    bar_tok = not (len(inp) > 3 and inp[3])
     if valid_piece(cfg, tracks) is None:
         return None
     t = ops.mk_tok(cfg)
@@ -1160,11 +1163,11 @@ def j_c03(inp):
     nb = len(bars[0])
     groups = ops.partition(random.Random(seed), nb)
     try:
-        whole = t.tokenise([Bar.to_sequence(tb) for tb in ops._bars_of(tracks)])
+        whole = t.tokenise([Bar.to_sequence(tb) for tb in ops._bars_of(tracks)], insert_bar_token=bar_tok)
         sd, chunks = {}, []
         bars2 = ops._bars_of(tracks)
         for a, b in groups:
-            chunks += t.tokenise([Bar.to_sequence(tb[a:b]) for tb in bars2], state_dict=sd)
+            chunks += t.tokenise([Bar.to_sequence(tb[a:b]) for tb in bars2], state_dict=sd, insert_bar_token=bar_tok)
         o1, o2 = t.detokenise(whole), t.detokenise(chunks)
     except Exception as e:
         return None if isinstance(e, Exception) and "Invalid" in str(e) else [f"{type(e).__name__}: {e}"]
@@ -1239,6 +1242,13 @@ def j_c19_tok(inp):
 
 # ---- C20 exhaustive
 def exhaustive_c20():
+    try:
+        return _exhaustive_c20()
+    except Exception as e:
+        return [f"music theory function raised {type(e).__name__}: {e}"], 1
+
+
+def _exhaustive_c20():
     v, n = [], 0
     scale = [0, 2, 4, 5, 7, 9, 11]
     for k in Key:
@@ -1249,7 +1259,11 @@ def exhaustive_c20():
             v.append(f"{k}: note set is not the major scale on its tonic")
         for i in range(-30, 31):
             n += 1
-            r = Key.transpose_key(k, i)
+            try:
+                r = Key.transpose_key(k, i)
+            except Exception as e:
+                v.append(f"transpose_key({k.name},{i}) raised {type(e).__name__}: {e}")
+                continue
             if r is None or not isinstance(r, Key):
                 v.append(f"transpose_key({k.name},{i}) returned {r!r}")
                 continue
